@@ -3,7 +3,7 @@ from xhair.runner import Obl
 M = "xhair.obl.c18"
 
 DPS_QUICK = ["00", "01", "09", "10", "99"]
-DPS_THOROUGH = ["00", "01", "09", "10", "19", "49", "90", "98", "99", "50"]
+DPS_THOROUGH = ["00", "01", "09", "10", "19", "90", "99"]
 # (conf, PRE, SUF, BASE)
 SKEL = [
     ("miniA", "h/a/x/", "/m", "h/a/x"),
@@ -18,7 +18,7 @@ SKEL = [
 
 def x_obligations(tier):
     o = []
-    T = 170 if tier == "quick" else 1500
+    T = 170 if tier == "quick" else 600
     dps = DPS_QUICK if tier == "quick" else DPS_THOROUGH
     for si, (conf, pre, suf, base) in enumerate(SKEL):
         env0 = {"VF_CONF": conf, "VF_PRE": pre, "VF_SUF": suf, "VF_BASE": base, "MINI_VDIGITS": "3"}
@@ -43,7 +43,7 @@ def x_obligations(tier):
                 continue
             o.append(Obl(f"C18-publish[{conf},{pre}v{dp}?{suf}]", M, "publish", env=dict(env0, VF_DP=dp), timeout=T, path_timeout=200, family="C18-new",
                          bound=f"existing v{dp}<c>; get_new, publish, get_new again"))
-    o.append(Obl("C18-next-anychar[miniA]", M, "next_any", env={"VF_CONF": "miniA", "VF_DP": "00", "MINI_VDIGITS": "3"}, timeout=60 if tier == "quick" else 1500, expect="find", family="C18-next",
+    o.append(Obl("C18-next-anychar[miniA]", M, "next_any", env={"VF_CONF": "miniA", "VF_DP": "00", "MINI_VDIGITS": "3"}, timeout=60 if tier == "quick" else 600, expect="find", family="C18-next",
                  bound="version 'v00'+<any character> (Unicode digits included): never raises, result empty or in the pattern; bug-hunt in quick"))
     o.append(Obl("C18-reach", M, "reach", env={"MINI_VDIGITS": "3"}, timeout=100, expect="refute", family="C18-twin"))
     return o
